@@ -228,6 +228,76 @@ type WithFolder struct {
 	TS   []Celsius
 }
 
+// Score is a named integer type for which engines register user-defined
+// unfolders (gotype.Unfolders) in three styles; see UnfolderOpts.
+type Score int
+
+type Scored struct {
+	Name string
+	S    Score
+	P    *Score
+	L    []Score
+	M    map[string]Score
+}
+
+type NamedFields struct {
+	IDs    NamedSlice
+	Labels NamedMap
+	P      *NamedSlice
+	LL     []NamedSlice
+}
+
+type scoreState struct {
+	gotype.BaseUnfoldState
+	to *Score
+}
+
+func (s *scoreState) OnInt(ctx gotype.UnfoldCtx, i int64) error {
+	*s.to = Score(i) * 2
+	ctx.Done()
+	return nil
+}
+func (s *scoreState) OnUint(ctx gotype.UnfoldCtx, u uint64) error {
+	*s.to = Score(u) * 2
+	ctx.Done()
+	return nil
+}
+func (s *scoreState) OnNil(ctx gotype.UnfoldCtx) error {
+	*s.to = -1
+	ctx.Done()
+	return nil
+}
+
+// NumUnfolderVariants is the number of user-unfolder configurations.
+const NumUnfolderVariants = 4
+
+// UnfolderOpts returns the options of user-unfolder configuration v for the
+// type Score: 0 none; 1 processing unfolder with a temporary cell; 2 processing
+// unfolder that re-uses the target as its cell and post-processes it;
+// 3 stateful unfolder (UnfoldState).
+func UnfolderOpts(v int) []gotype.UnfoldOption {
+	switch v {
+	case 1:
+		cell := new(int)
+		return []gotype.UnfoldOption{gotype.Unfolders(func(_ *Score) (interface{}, func(*Score, interface{}) error) {
+			return cell, func(to *Score, _ interface{}) error {
+				*to = Score(*cell + 7)
+				return nil
+			}
+		})}
+	case 2:
+		return []gotype.UnfoldOption{gotype.Unfolders(func(to *Score) (interface{}, func(*Score, interface{}) error) {
+			return to, func(to *Score, _ interface{}) error {
+				*to += 11
+				return nil
+			}
+		})}
+	case 3:
+		return []gotype.UnfoldOption{gotype.Unfolders(func(to *Score) gotype.UnfoldState { return &scoreState{to: to} })}
+	}
+	return nil
+}
+
 // MyStr is a named string type used as map key.
 type MyStr string
 
@@ -251,6 +321,9 @@ type TypeEntry struct {
 	Supported bool
 	// HasStrings: the type can hold strings/keys (aliasing checks).
 	HasStrings bool
+	// Family groups types that contain each other (histories on one instance
+	// are drawn from one family half of the time: caches keyed by type).
+	Family string
 	// FoldOnly: the library can fold values of the type but does not accept it
 	// as an unfold target (inline maps, Folder implementations).
 	FoldOnly bool
@@ -546,6 +619,34 @@ var Catalogue = []TypeEntry{
 		}
 		return out
 	}),
+	mk("Score", false, func(c *simkit.Choices) Score { return Score(c.N(1000)) }),
+	mk("[]Score", false, func(c *simkit.Choices) []Score {
+		return genSlice(c, func(c *simkit.Choices) Score { return Score(c.N(1000)) })
+	}),
+	mk("map[string]Score", true, func(c *simkit.Choices) map[string]Score {
+		return genMap(c, func(c *simkit.Choices) Score { return Score(c.N(1000)) })
+	}),
+	mk("Scored", true, func(c *simkit.Choices) Scored {
+		sc := Scored{Name: genStr(c), S: Score(c.N(1000)), L: genSlice(c, func(c *simkit.Choices) Score { return Score(c.N(100)) }),
+			M: genMap(c, func(c *simkit.Choices) Score { return Score(c.N(100)) })}
+		if c.Bool() {
+			p := Score(c.N(50))
+			sc.P = &p
+		}
+		return sc
+	}),
+	mk("NamedFields", true, func(c *simkit.Choices) NamedFields {
+		nf := NamedFields{IDs: NamedSlice(genSlice(c, func(c *simkit.Choices) int { return c.N(100) })), Labels: NamedMap(genMap(c, genStr)),
+			LL: genSlice(c, func(c *simkit.Choices) NamedSlice { return NamedSlice(genSlice(c, func(c *simkit.Choices) int { return c.N(9) })) })}
+		if c.Bool() {
+			p := NamedSlice{1, 2, c.N(5)}
+			nf.P = &p
+		}
+		return nf
+	}),
+	mk("[]NamedSlice", false, func(c *simkit.Choices) []NamedSlice {
+		return genSlice(c, func(c *simkit.Choices) NamedSlice { return NamedSlice(genSlice(c, func(c *simkit.Choices) int { return c.N(9) })) })
+	}),
 	mk("OrderedKV", true, genOrderedKV),
 	mk("WithKV", true, func(c *simkit.Choices) WithKV {
 		return WithKV{Name: genStr(c), KV: genOrderedKV(c), List: genSlice(c, genOrderedKV)}
@@ -641,6 +742,39 @@ func localRecordB() TypeEntry {
 	return mk("local-B.record", true, func(c *simkit.Choices) record {
 		return record{Host: genStr(c), Port: c.N(3), Note: genStr(c), Extra: genSlice(c, genStr)}
 	})
+}
+
+var families = map[string][]string{
+	"inner":  {"Inner", "Holder", "Nested", "Tagged", "[]*Inner", "Wide", "[]Wide", "OmitAll", "Ptrs"},
+	"named":  {"NamedSlice", "NamedMap", "NamedFields", "[]NamedSlice", "[]int", "map[string]string"},
+	"score":  {"Score", "[]Score", "map[string]Score", "Scored", "int"},
+	"simple": {"Simple", "[]Simple", "map[string]Simple", "*Simple", "Nested", "map[MyStr]Simple", "Wide"},
+	"kv":     {"OrderedKV", "WithKV", "map[string]string", "Strs"},
+	"folder": {"WithFolder", "InlineFolder", "InlineIfc", "InlineMap", "InlineTyped", "map[string]interface{}"},
+	"local":  {"local-A.record", "local-B.record"},
+	"ifc":    {"interface{}", "[]interface{}", "map[string]interface{}", "[]map[string]interface{}", "Strs", "Tagged"},
+}
+
+var familyNames = []string{"inner", "named", "score", "simple", "kv", "folder", "local", "ifc"}
+
+// PickRelated draws n types; half of the time all from one family (types
+// that contain each other), else independently.
+func PickRelated(c *simkit.Choices, n int, forUnfold bool) []*TypeEntry {
+	out := make([]*TypeEntry, 0, n)
+	if c.Bool() {
+		fam := families[familyNames[c.N(len(familyNames))]]
+		for tries := 0; len(out) < n && tries < 8*n; tries++ {
+			te := TypeByName(fam[c.N(len(fam))])
+			if te == nil || !te.Supported || (forUnfold && te.FoldOnly) {
+				continue
+			}
+			out = append(out, te)
+		}
+	}
+	for len(out) < n {
+		out = append(out, PickType(c, forUnfold, false, false))
+	}
+	return out
 }
 
 func init() {
